@@ -1,4 +1,5 @@
 import NxProofs.PrudpChecked
+import NxProofs.PrudpSound
 /-!
 # C03 — PRUDP packet codecs are lossless and independent of framing
 
@@ -12,10 +13,12 @@ length = signature_size, connection signature 4 / 16 bytes where carried) and *f
 the value the decoder produces* (e.g. substream in v0/lite, fragment id in non-DATA v0/v1, `version` = 0 / 1 / None).
 The v0 theorems are parametric in `V0Cfg`: one statement covers the 2×2×2 variants and every access key.
 
-Not proved here (said in the manifest): the bytes→packet→bytes direction for *arbitrary* accepted bytes
-(`decode b = ok [p] → encode p = b`). It is false as stated for v0 (negative-length corner, see
-`v0_negative_length_corner`) and for v1/lite when options arrive in another order; the property itself only speaks about
-re-encoding a decoded *encoding*, which is `*_reencode` below.
+The bytes→packet→bytes direction for *arbitrary* accepted bytes (`decode b = ok [p] → encode p = b`) is false as stated
+for v0 (negative-length corner, see `v0_negative_length_corner`) and for v1/lite when options arrive in another order;
+it is proved for v1 in the form that is true (`v1_encode_decode`: accepted bytes = encoding of the decoded packet with
+its options in arrival order; = `v1Encode p` when that is the emission order) and for option blocks
+(`options_encode_decode`); not proved for v0 and lite. The property itself only speaks about re-encoding a decoded
+*encoding*, which is `*_reencode` below.
 -/
 namespace Nx.C03
 open Nx Nx.Prudp
@@ -49,6 +52,18 @@ theorem v1_reencode (p : Packet) (h : V1WF p) :
 theorem lite_reencode (p : Packet) (h : LiteWF p) :
     (liteFeed [] (liteEncode p)).1.map (fun qs => qs.flatMap liteEncode) = .ok (liteEncode p) := by
   rw [liteFeed_encode p h]; simp [Except.map]
+
+/-! ## bytes → packet → bytes (v1) -/
+
+/-- every datagram the v1 decoder accepts is exactly the encoding of the packet it yields, with the option dict `o` in
+    the order the options arrived; `o` has the key set `verify_options` demands and in-range values -/
+theorem v1_encode_decode {b rest : Bytes} {p : Packet} (h : v1DecodeOne b = .ok (p, rest)) :
+    ∃ o : Opts, v1VerifyOptions p.type o = true ∧ OptsWF o ∧ b = v1EncodeWith p o ++ rest :=
+  v1DecodeOne_sound h
+
+/-- … which is the encoder's own output when the options are in emission order (canonical bytes) -/
+theorem v1_encode_decode_canonical (p : Packet) : v1EncodeWith p (v1Options p) = v1Encode p :=
+  v1EncodeWith_canonical p
 
 /-! ## the total encoders are the code's encoders on well-formed packets (no exception is raised) -/
 
@@ -121,6 +136,11 @@ theorem options_reject_duplicate (o : Opts) (k : Nat) (v : OptVal) (rest : Bytes
 /-- whatever is accepted has pairwise distinct keys -/
 theorem options_decoded_keys_distinct (d : Bytes) (o : Opts) (h : decodeOptions d = .ok o) : o.keys.Nodup :=
   (decodeOptionsLoop_keys _ [] d o h).1
+
+/-- the other direction: whatever `decode_options` accepts is exactly the encoding of the dict it returns, and that
+    dict is well-formed — an option block has one reading only -/
+theorem options_encode_decode (d : Bytes) (o : Opts) (h : decodeOptions d = .ok o) : encodeOptions o = d ∧ OptsWF o :=
+  decodeOptions_sound d o h
 
 /-! ## encoding selection -/
 
